@@ -42,6 +42,11 @@ CLAIMED.update({
          "enum/const/uniqueItems are decided by the equality function, every item is recorded and compared with its whole bucket, the hash is representation independent and deterministic for equal values, one seed per call. Includes the C11 equality clauses. Not collision behaviour.", "4/C12"),
 })
 
+CLAIMED.update({
+ "C19": ("order-insensitivity classifier over every randomised iteration reachable from MarshalJSON (context-sensitive sink analysis); must-pass-through of the sorted second pass; guard analysis of the listed pass and of the duplicate check; write-effect analysis of the marshal closure",
+         "No byte is emitted in map order, listed names first then the sorted remainder on every successful path, duplicates of any name rejected before emission, inputs untouched, inferred order always de-duplicated. Not observed byte equality.", "4/C19"),
+})
+
 NOT_YET = "static clauses designed in DESIGN.md section 4 but the rule is not built yet in this session"
 
 def main():
